@@ -123,23 +123,30 @@ def all_eq(xs, ys):
     return z3.And(*[eq(a, b) for a, b in zip(xs, ys)]) if xs else z3.BoolVal(True)
 
 
-def abstract_ws2d(it):
-    """Callee abstraction: ws2d(y, lmda, w) becomes an uninterpreted family WS_i(y, lmda, w), i < n (DESIGN 4.2).
+def abstract_ws2d(it, record=None):
+    """Callee abstraction: ws2d(y, lmda, w) becomes an uninterpreted family WS_i(y masked by w, lmda, w), i < n (DESIGN 4.2).
 
-    Sound for proving equalities between two executions (congruence); a 'sat' under the abstraction is only a candidate."""
+    The solution of (W + lam D'D) z = W y depends on y only through W y (C01), so cells of zero weight are masked to 0.
+    Sound for proving equalities between two executions (congruence); a 'sat' under the abstraction is only a candidate.
+    record: list receiving one dict per call (y, lam, w, z) - used to instantiate the ws2d lemmas of C06."""
     def f(interp, st, args, kwargs):
         y, lam, wv = args
         n = y.shape[0]
         ys = interp.arr_values(st, y)
         ws = interp.arr_values(st, wv)
-        # the solution of (W + lam D'D) z = W y depends on y only through the products w_i * y_i (C01)
-        wy = [interp.A.mul(a, b) for a, b in zip(ws, ys)]
-        vec = wy + [lam] + ws
+        my = []
+        for a, b in zip(ws, ys):
+            zero = interp.A.cmp("==", a, 0)
+            my.append(interp.A.ite(zero, 0, b) if not isinstance(zero, bool) else (0 if zero else b))
+        vec = my + [lam] + ws
         if any(V.is_nonfinite(v) for v in vec):
             raise Unsupported("non-finite argument to abstracted ws2d")
         targs = [V.to_real(V.num_of_bool(v)) for v in vec]
         cells = [interp.A.uf(f"WS{n}_{i}", 2 * n + 1)(*targs) for i in range(n)]
         interp.uf_ws2d_calls = getattr(interp, "uf_ws2d_calls", 0) + 1
+        if record is not None:
+            record.append({"y": [V.to_real(V.num_of_bool(v)) for v in ys], "lam": V.to_real(V.num_of_bool(lam)),
+                           "w": [V.to_real(V.num_of_bool(v)) for v in ws], "z": cells, "guard": z_and_pc(st)})
         return interp.new_array(st, (n,), "float64", cells=cells)
     it.overrides["ws2d"] = f
     it.encoded["hdc.algo.ops.ws2d.ws2d (abstracted: uninterpreted)"] = "uf"
@@ -159,6 +166,10 @@ def abstract_ws2d(it):
             args.append(V.to_real(V.num_of_bool(interp.A.truthy(m) if not V.is_boolish(m) else m)))
         return interp.A.uf(f"MED{len(vals)}", len(args))(*args)
     it.lib_overrides["numpy.median"] = uf_median
+
+
+def z_and_pc(st):
+    return V.z_and(*st.pc)
 
 
 def two_stage(w, build, names_hint="", inline=True):
